@@ -96,7 +96,7 @@ def check(spec):
                         else:
                             raise Discard("plain junction receives people while its proportions sum to <= 0")
                     else:
-                        exp = inflow * p / s
+                        exp = inflow * (p / s)  # normalise first: a denormal proportion times the inflow would underflow
                 got = np.asarray(l._vals[:, ti], dtype=float) if grouped else float(rp.lv[l][ti])
                 tol = 1e-9 * max(1.0, tot_in)
                 if np.shape(got) != np.shape(exp) or np.any(np.abs(got - exp) > tol) or not np.all(np.isfinite(got)):
